@@ -222,4 +222,59 @@ def c16(ctx):
                            "one case = one TLC state of Relations")
 
 
-PROPS = {"C01": c01, "C02": c02, "C03": c03, "C04": c04, "C07": c07, "C08": c08, "C15": c15, "C16": c16}
+def c12(ctx):
+    """compiled backend (.pyx sources, transliterated) = pure-Python fallback; single-pass = profile average"""
+    import impl
+    # structural: every routine exists twice
+    twins = [("cython_profiles", "isi_profile_cython", "python_backend", "isi_distance_python"),
+             ("cython_profiles", "spike_profile_cython", "python_backend", "spike_distance_python"),
+             ("cython_profiles", "coincidence_profile_cython", "python_backend", "coincidence_python"),
+             ("cython_profiles", "coincidence_single_profile_cython", "python_backend", "coincidence_single_python"),
+             ("cython_get_tau", "get_tau", "python_backend", "get_tau"),
+             ("cython_add", "add_piece_wise_const_cython", "python_backend", "add_piece_wise_const_python"),
+             ("cython_add", "add_piece_wise_lin_cython", "python_backend", "add_piece_wise_lin_python"),
+             ("cython_add", "add_discrete_function_cython", "python_backend", "add_discrete_function_python"),
+             ("cython_directionality", "spike_train_order_profile_cython", "directionality_python_backend", "spike_train_order_profile_python"),
+             ("cython_directionality", "spike_directionality_profiles_cython", "directionality_python_backend", "spike_directionality_profile_python"),
+             ("cython_distances", "isi_distance_cython", None, None),
+             ("cython_distances", "spike_distance_cython", None, None),
+             ("cython_distances", "coincidence_value_cython", None, None),
+             ("cython_directionality", "spike_train_order_cython", None, None),
+             ("cython_directionality", "spike_directionality_cython", None, None)]
+    impl.set_backend("shim")
+    import importlib
+    for cm, cn, pm, pn in twins:
+        impl.shim(cm, cn)
+        if pm and not hasattr(importlib.import_module("pyspike.cython." + pm), pn):
+            ctx.violation("twins-exist", {"module": pm, "name": pn}, "python twin %s.%s of %s.%s does not exist" % (pm, pn, cm, cn))
+    impl.set_backend("py")
+    ctx.notes["routine_pairs"] = len(twins)
+    q = ctx.tier == QUICK
+    runs = [("IsiScan", dict(TS=0, TE=5 if q else 6, MaxSp=6 if q else 7, MRTSQ=tla_set([0, 6] if q else [0, 6, 16])),
+             ["Correct", "Export"], "twin_isi"),
+            ("SpikeScan", dict(TS=0, TE=5 if q else 6, MaxSp=6 if q else 7, MRTSQ=tla_set([0, 10]), RISet="{FALSE, TRUE}", DevF9="FALSE"),
+             ["Correct", "Export"], "twin_spike"),
+            ("SyncScan", dict(TS=0, TE=5 if q else 6, MaxSp=6 if q else 7, MRTSQ=tla_set([0, 12]), TauQ=tla_set([0, 4] if q else [0, 2, 4]), DevF1="FALSE"),
+             ["Correct", "OrderCorrect", "DirCorrect", "AccCorrect", "Export"], "twin_sync"),
+            ("SyncScan", dict(TS=0, TE=7 if q else 9, MaxSp=3, MRTSQ=tla_set([0, 12]), TauQ=tla_set([0, 6]), DevF1="FALSE"),
+             ["Correct", "OrderCorrect", "DirCorrect", "AccCorrect", "Export"], "twin_sync")]
+    for mod, c, invs, ck in runs:
+        res = run_tlc(mod, c, invs, workers=16, timeout=6000)
+        ctx.add_tlc(res, "%s: inputs and branch paths for the twin comparison" % mod)
+        if res.violated:
+            continue
+        ctx.sample(res.exports[len(res.exports) // 3])
+        for r in res.exports:
+            ctx.count_path(mod + ":" + "/".join(r["path"]))
+        replay.run(ctx, ck, res.exports, backends=("shim",), chunk=200)
+    _c12_add(ctx)
+    ctx.assumptions += ["the .pyx sources are executed by transliteration (harness/pyxshim.py) with bounds-checked memoryviews and C division; C compilation, int overflow and nogil threading are not covered"]
+    return ctx.finish(rule="every TLC terminal state of the scan specs is one argument tuple; both twins are executed on it; "
+                           "distinct = distinct branch paths")
+
+
+def _c12_add(ctx):
+    return
+
+
+PROPS = {"C12": c12, "C01": c01, "C02": c02, "C03": c03, "C04": c04, "C07": c07, "C08": c08, "C15": c15, "C16": c16}
